@@ -9,9 +9,11 @@ Full strength ("for every execution tree and failure plan: success only if every
 a documented exception frame; otherwise an error carrying the first such failure; no panic escapes") is
 FALSE of the code as it exists: `BLS.aggregateSignatures` / `BLS.aggregatePublicKeys` turn a returned
 host error into `nil` (`bls_swallow_witness`, known finding `bls-aggregate-error-swallowed`).  The
-`_partial` theorems prove it for all trees without such calls.  What the model does not cover —
+`_partial` theorems prove it for all trees without such calls; `propagates` / `no_success_after_failure`
+extend them to ALL trees by making the absorbed failures explicit (only *error returns* of calls made by
+`absorbErr` nodes are ever absorbed).  What the model does not cover —
 unmodelled Go code between a call site and the top dropping a *returned* error — is what the `fault`
-stream checks exhaustively over its corpus (it found `vm-type-load-drops-host-error`).
+stream checks exhaustively over its corpus (it found `vm-type-load-drops-host-error`, fixed in /repo c7c148d).
 -/
 import Verif.Proofs.HostProp
 import Verif.Spec.HostFacts
@@ -90,6 +92,68 @@ theorem propagates_partial (sites : Nat → Site) (hs : AllWrapped sites) (plan 
     | ext c => exact .inr ⟨c, by simp [top], f4, f3, hcaught⟩
     | user c => exact .inr ⟨c, by simp [top], f4, f3, hcaught⟩
 
+/-- **Propagation for ALL trees, `absorbErr` nodes included** (the code as it exists): with the
+    executors under `Recover` and all call sites wrapped, the execution either reports success, or yields an
+    external-tagged error that carries an injected failure, raised at the last host call made, such that
+    every earlier injected failure was either caught by a `contracts.tryUpdate` frame or *absorbed* — and
+    what is absorbed is exactly characterised: an **error return** (never a panic) of a call made by an
+    `absorbErr` node (BLS aggregation) that the run reached.  No panic escapes.
+
+    This is as far as `propagates_partial` extends: its conclusion "every earlier failure was *caught by a
+    documented frame*" is false on trees with `absorbErr` nodes (`bls_swallow_witness`), so the absorbed
+    set has to appear in the statement; everything else carries over unchanged — in particular a *panic*
+    at an `absorbErr` site, and an error at any other site of such a tree, still propagate. -/
+theorem propagates (sites : Nat → Site) (hs : AllWrapped sites) (plan : Nat → Option Mode) (t : Tree) :
+    let r := execute sites true plan t
+    (r.1 = .ok ∨
+     ∃ c, r.1 = .error true c ∧ plan c ≠ none ∧ c + 1 = r.2.counter ∧
+       ∀ c', c' < c → plan c' ≠ none → c' ∈ r.2.caught ∨ c' ∈ r.2.absorbed) ∧
+    (∀ c, c ∈ r.2.absorbed → plan c = some .err ∧ c < r.2.counter ∧ t.hasAbsorb = true) := by
+  have inv := run_inv sites hs plan t {}
+  have habs := run_absorbed_err sites plan t {}
+  unfold execute
+  rcases hr : run sites plan t {} with ⟨st, r⟩
+  rw [hr] at inv habs
+  simp only []
+  constructor
+  · cases r with
+    | none => exact .inl rfl
+    | some x =>
+      obtain ⟨f1, _, f3, f4, f5⟩ := inv.failure x rfl
+      cases x with
+      | raw c => simp [Raise.isRaw] at f1
+      | ext c => exact .inr ⟨c, by simp [top], f4, f3, fun c' h1 h2 => f5 c' (Nat.zero_le _) h1 h2⟩
+      | user c => exact .inr ⟨c, by simp [top], f4, f3, fun c' h1 h2 => f5 c' (Nat.zero_le _) h1 h2⟩
+  · intro c hc
+    rcases habs c hc with h | ⟨h1, _, h3, h4⟩
+    · simp at h
+    · exact ⟨h1, h3, h4⟩
+
+/-- Success after failures, for ALL trees: an execution that reports success has had every injected
+    failure it reached caught by a `tryUpdate` frame or absorbed as an error return of an `absorbErr`
+    (BLS aggregation) call — in particular **no panic of the host is ever followed by success** outside a
+    `tryUpdate` frame, and no error return of any of the other 43 callbacks. -/
+theorem no_success_after_failure (sites : Nat → Site) (hs : AllWrapped sites) (plan : Nat → Option Mode)
+    (t : Tree) (hok : (execute sites true plan t).1 = .ok) :
+    ∀ c, c < (execute sites true plan t).2.counter → plan c ≠ none →
+      c ∈ (execute sites true plan t).2.caught ∨
+      (c ∈ (execute sites true plan t).2.absorbed ∧ plan c = some .err) := by
+  intro c hc hp
+  have inv := run_inv sites hs plan t {}
+  have habs := run_absorbed_err sites plan t {}
+  unfold execute at hok hc ⊢
+  rcases hr : run sites plan t {} with ⟨st, r⟩
+  rw [hr] at inv habs
+  simp only [hr] at hok hc ⊢
+  cases r with
+  | some x => cases x <;> simp [top] at hok
+  | none =>
+    rcases inv.success rfl c (Nat.zero_le _) hc hp with h | h
+    · exact .inl h
+    · rcases habs c h with h' | ⟨h1, _, _, _⟩
+      · simp at h'
+      · exact .inr ⟨h, h1⟩
+
 /-- No failure is dropped at a call site (all sites wrapped). -/
 theorem nothing_swallowed_at_call_sites (sites : Nat → Site) (hs : AllWrapped sites) (plan : Nat → Option Mode)
     (t : Tree) (topRecover : Bool) : (execute sites topRecover plan t).2.swallowed = [] := by
@@ -113,6 +177,12 @@ theorem bls_swallow_witness :
     r.1 = .ok ∧ r.2.caught = [] ∧ r.2.absorbed = [1] := by decide
 
 /-! Non-vacuity -/
+-- `propagates` on a tree with an `absorbErr` node: the absorbed error return at call 1, then the panic at
+-- the BLS call 3 propagates, carried by the result
+def absorbDemo : Res × St := execute (sitesOf Verif.Gen.HostFacts.methods) true
+  (fun c => if c = 1 then some Mode.err else if c = 3 then some Mode.panic else none)
+  (.seq (.call 0) (.seq (.absorbErr 3) (.seq (.call 2) (.seq (.absorbErr 4) (.call 5)))))
+example : absorbDemo.1 = .error true 3 ∧ absorbDemo.2.absorbed = [1] ∧ absorbDemo.2.counter = 4 := by decide
 example : (execute (sitesOf Verif.Gen.HostFacts.methods) true (fun c => if c = 1 then some .panic else none)
     (.seq (.call 0) (.seq (.call 5) (.call 2)))).1 = .error true 1 := by decide
 example : (execute (sitesOf Verif.Gen.HostFacts.methods) true (fun c => if c = 0 then some .err else none)
